@@ -697,7 +697,7 @@ def m_future_poll(c, pin, cx):
     h = getattr(ip, 'poll_hook', None)
     if h:
         return h(ip, co, ptr)
-    raise Inconclusive("poll of %r" % (co,))
+    return ip.poll(ptr)          # (model-made futures that are awaited like an `async fn`: the interpreter knows them)
 
 
 @model(r'^<Pin<Box<dyn (?:futures::|std::future::)?Future<.*> as (?:futures::|std::future::)?Future>::poll$')
